@@ -45,10 +45,38 @@ def strategy(tier):
 
 
 def sweeps(tier):
+    """Large messages of every variable-length kind under repeated encodes / decodes (state that only
+    overflows or accumulates with size is invisible on small messages)."""
+    big = [('rsp:3', {'registers': [(i * 7 + 1) & 0xFFFF for i in range(125)]}),
+           ('rsp:1', {'bits': [bool(i % 3) for i in range(2000)]}),
+           ('req:16', {'address': 1, 'registers': [(i * 5 + 2) & 0xFFFF for i in range(123)]}),
+           ('req:15', {'address': 1, 'bits': [bool(i % 2) for i in range(1968)]}),
+           ('req:23', {'read_address': 1, 'read_quantity': 125, 'write_address': 2, 'registers': [(i + 3) & 0xFFFF for i in range(121)]}),
+           ('rsp:23', {'registers': [(i * 3) & 0xFFFF for i in range(125)]}),
+           ('rsp:12', {'status_word': 0, 'event_count': 1, 'message_count': 2, 'events': [i & 0x7F for i in range(64)]}),
+           ('rsp:17', {'identifier': ('ab' * 120), 'run': True}),
+           ('req:20', {'records': [{'file': i, 'record': i + 1, 'length': 2} for i in range(35)]}),
+           ('req:21', {'records': [{'file': 1, 'record': 2, 'data': '0102' * 50}, {'file': 3, 'record': 4, 'data': 'a1b2' * 40}]}),
+           ('rsp:21', {'records': [{'file': 1, 'record': 2, 'data': '0102' * 100}]}),
+           ('req:8', {'sub': 0, 'data': [(i * 9) & 0xFFFF for i in range(60)]}),
+           ('rsp:8', {'sub': 21, 'data': [3] + [(i * 9) & 0xFFFF for i in range(54)]})]
+    for total in (60, 123, 124, 200, 240):
+        objs, left, oid = [], total, 0
+        while left > 2:
+            n = min(left - 2, 60)
+            objs.append([oid if oid < 7 else 0x80 + oid, ('%02x' % (0x41 + oid)) * n])
+            left -= n + 2
+            oid += 1
+        big.append(('rsp:43', {'read_code': 3, 'conformity': 0x83, 'more': 0, 'next_id': 0, 'objects': objs}))
     cases = []
-    for kind in kinds.ALL_KINDS:
-        pass
-    return []
+    for kind, f in big:
+        small = dict(f)
+        for k, v in small.items():
+            if isinstance(v, list):
+                small[k] = v[:2]
+        for ops in (['E', 'E', 'E', 'E', 'E', 'E'], ['E', 'D2', 'E', 'D1', 'E', 'DS'], ['DS', 'DS', 'E', 'E', 'D2', 'E']):
+            cases.append({'kind': kind, 'f1': f, 'f2': small, 'ops': ops})
+    return [('largest-messages-under-repeated-encode-decode', cases, False)]
 
 
 def _decoder(kind):
